@@ -571,9 +571,108 @@ pub proof fn lemma_pick(ln: int, ld: int, un: int, ud: int, il: bool, ir: bool, 
     }
 }
 
-/// the domain of the contract of simplest_from_float
+/// the domain of the contract of simplest_from_float: an infinity, zero, or a float of LIMITED precision p >= 1 in an EVEN
+/// base whose significand is normalized (not divisible by the base: invariant of float Repr) and fits the precision
+/// (invariant of FBig) -- the domain eb_domain of the error_bounds contract -- with precision and exponents inside the
+/// resource limits of FBig + / - (2^56; exponent overflow is a documented panic, C16).
+/// ODD bases are EXCLUDED: known finding (engine/registry_d/findings.py, kani/harness/float_findings.rs): half an ulp has
+/// no finite expansion in an odd base, error_bounds rounds it up and simplest_from_float(0.1 base 3, 1 digit) = 1/2.
 pub open spec fn sf_domain<R: Round, const B: Word>(f: FBig<R, B>) -> bool {
     let (b, sig, exp, p) = (B as int, f.repr.significand.v(), f.repr.exponent as int, f.context.precision as int);
     let lim = 0x100_0000_0000_0000int;
     sig == 0 || (eb_domain(b, sig, exp, p) && p + 1 < lim && exp < lim && -lim + 3 < exp + ndigits(b, sig) - p)
+}
+
+/// what is known about `f - y` / `f + y` for EVERY y with the representation (bsig, bexp) and precision p + 1 (the bound
+/// after `.with_precision(p + 1).unwrap()`, an intermediate value without a name): from the TRUSTED ax_fbig_sub / _add
+pub open spec fn sf_res_ok<R: Round, const B: Word>(f: FBig<R, B>, z: FBig<R, B>, S: int, E: int) -> bool {
+    &&& z.context.precision == f.context.precision + 1
+    &&& !(z.repr.significand.v() == 0 && z.repr.exponent != 0)
+    &&& z.repr.exponent > isize::MIN
+    &&& same_value(B as int, z.repr.significand.v(), z.repr.exponent as int, S, E)
+}
+pub open spec fn sf_is_bound<R: Round, const B: Word>(y: FBig<R, B>, bsig: int, bexp: int, p1: int) -> bool {
+    y.repr.significand.v() == bsig && y.repr.exponent == bexp && y.context.precision == p1
+}
+
+/// everything simplest_from_float needs after `R::error_bounds(f)`: the sizes (l2, r2) of the two bounds in half fine
+/// steps, the preconditions of with_precision / unwrap / - / +, and the value of lb, rb (quantified over the unnamed bound)
+pub proof fn lemma_sf_pre<R: Round, const B: Word>(md: Mode, f: FBig<R, B>, l: FBig<R, B>, r: FBig<R, B>, il: bool, ir: bool) -> (k: (int, int))
+    requires
+        B >= 2, f.repr.significand.v() != 0, sf_domain(f),
+        eb_post(md, B as int, f.repr.significand.v(), f.repr.exponent as int, f.context.precision as int,
+            l.repr.significand.v(), l.repr.exponent as int, r.repr.significand.v(), r.repr.exponent as int, il, ir),
+        eb_shape(f.context.precision, l), eb_shape(f.context.precision, r),
+    ensures ({
+        let (b, sig, exp, p) = (B as int, f.repr.significand.v(), f.repr.exponent as int, f.context.precision as int);
+        let (eu, m, g) = (sf_eu(b, sig, exp, p), sf_m(b, sig, p), eb_g(b, sig));
+        let lim = 0x100_0000_0000_0000int;
+        let (wl, wr) = (sf_wit(b, sig, exp, p, true, k.0), sf_wit(b, sig, exp, p, false, k.1));
+        &&& 0 <= k.0 <= 2 * g && 0 <= k.1 <= 2 * g && k.0 + k.1 > 0
+        &&& eb_exact(md, m, g, k.0, k.1, il, ir)
+        // with_precision(p + 1) is exact, `-` / `+` are inside their limits
+        &&& ndigits(b, l.repr.significand.v()) <= 1 && ndigits(b, r.repr.significand.v()) <= 1
+        &&& fbig_wf(l) && fbig_wf(r)
+        &&& -lim < l.repr.exponent < lim && -lim < r.repr.exponent < lim && -lim < exp < lim
+        &&& ndigits(b, sig) <= p
+        // the end points
+        &&& same_value(b, 2 * wl.0, wl.1, sf_K(b, sig, p, true, k.0), eu)
+        &&& same_value(b, 2 * wr.0, wr.1, sf_K(b, sig, p, false, k.1), eu)
+        &&& forall|y: FBig<R, B>| sf_is_bound(y, l.repr.significand.v(), l.repr.exponent as int, p + 1) ==> sf_res_ok(f, #[trigger] fbig_sub(f, y), wl.0, wl.1)
+        &&& forall|y: FBig<R, B>| sf_is_bound(y, r.repr.significand.v(), r.repr.exponent as int, p + 1) ==> sf_res_ok(f, #[trigger] fbig_add(f, y), wr.0, wr.1)
+    })
+{
+    let (b, sig, exp, p) = (B as int, f.repr.significand.v(), f.repr.exponent as int, f.context.precision as int);
+    let (eu, m, g) = (sf_eu(b, sig, exp, p), sf_m(b, sig, p), eb_g(b, sig));
+    let (lsig, lexp, rsig, rexp) = (l.repr.significand.v(), l.repr.exponent as int, r.repr.significand.v(), r.repr.exponent as int);
+    let k = choose|l2: int, r2: int| 0 <= l2 <= 2 * g && 0 <= r2 <= 2 * g && half_units(b, lsig, lexp, eu, l2) && half_units(b, rsig, rexp, eu, r2)
+        && #[trigger] eb_exact(md, m, g, l2, r2, il, ir);
+    let (l2, r2) = k;
+    lemma_f_grid(b, sig, exp, p);
+    lemma_eb_unique(md, m, g, l2, r2, il, ir);
+    lemma_one_digit(b, lsig);
+    lemma_one_digit(b, rsig);
+    lemma_endpoint(md, b, sig, exp, p, l2, r2, il, ir, true, lsig, lexp);
+    lemma_endpoint(md, b, sig, exp, p, l2, r2, il, ir, false, rsig, rexp);
+    let (wl, wr) = (sf_wit(b, sig, exp, p, true, l2), sf_wit(b, sig, exp, p, false, r2));
+    assert forall|y: FBig<R, B>| sf_is_bound(y, lsig, lexp, p + 1) implies sf_res_ok(f, #[trigger] fbig_sub(f, y), wl.0, wl.1) by {
+        ax_fbig_sub(f, y, wl.0, wl.1);
+    }
+    assert forall|y: FBig<R, B>| sf_is_bound(y, rsig, rexp, p + 1) implies sf_res_ok(f, #[trigger] fbig_add(f, y), wr.0, wr.1) by {
+        ax_fbig_add(f, y, wr.0, wr.1);
+    }
+    k
+}
+
+/// the end of simplest_from_float: from the two converted end points and the interior candidate to the contract
+pub proof fn lemma_sf_final(md: Mode, b: int, sig: int, exp: int, p: int, l2: int, r2: int, il: bool, ir: bool,
+                            lbs: int, lbe: int, rbs: int, rbe: int, ln: int, ld: int, un: int, ud: int, s0n: int, s0d: int)
+    requires
+        eb_domain(b, sig, exp, p), 0 <= l2, 0 <= r2, l2 + r2 > 0,
+        eb_exact(md, sf_m(b, sig, p), eb_g(b, sig), l2, r2, il, ir),
+        same_value(b, lbs, lbe, sf_wit(b, sig, exp, p, true, l2).0, sf_wit(b, sig, exp, p, true, l2).1),
+        same_value(b, rbs, rbe, sf_wit(b, sig, exp, p, false, r2).0, sf_wit(b, sig, exp, p, false, r2).1),
+        same_value(b, 2 * sf_wit(b, sig, exp, p, true, l2).0, sf_wit(b, sig, exp, p, true, l2).1, sf_K(b, sig, p, true, l2), sf_eu(b, sig, exp, p)),
+        same_value(b, 2 * sf_wit(b, sig, exp, p, false, r2).0, sf_wit(b, sig, exp, p, false, r2).1, sf_K(b, sig, p, false, r2), sf_eu(b, sig, exp, p)),
+        fv(b, lbs, lbe, ln, ld), fv(b, rbs, rbe, un, ud),
+        wf_ratio(ln, ld), wf_ratio(un, ud), wf_ratio(s0n, s0d),
+        !(ln == un && ld == ud) ==> is_simplest_in(ln, ld, un, ud, s0n, s0d),
+    ensures
+        sf_post(md, b, sig, exp, p, sf_pick(ln, ld, un, ud, il, ir, s0n, s0d).0, sf_pick(ln, ld, un, ud, il, ir, s0n, s0d).1)
+{
+    let eu = sf_eu(b, sig, exp, p);
+    let (wl, wr) = (sf_wit(b, sig, exp, p, true, l2), sf_wit(b, sig, exp, p, false, r2));
+    let (KL, KR) = (sf_K(b, sig, p, true, l2), sf_K(b, sig, p, false, r2));
+    lemma_endpoint_fv(b, lbs, lbe, wl.0, wl.1, KL, eu, ln, ld);
+    lemma_endpoint_fv(b, rbs, rbe, wr.0, wr.1, KR, eu, un, ud);
+    assert(KL < KR);
+    lemma_left_lt_right(b, KL, KR, eu, ln, ld, un, ud);
+    assert(!(ln == un && ld == ud));
+    lemma_pick(ln, ld, un, ud, il, ir, s0n, s0d);
+    let r = sf_pick(ln, ld, un, ud, il, ir, s0n, s0d);
+    lemma_member(md, b, sig, exp, p, l2, r2, il, ir, ln, ld, un, ud, r.0, r.1);
+    assert forall|qn: int, qd: int| qd >= 1 && #[trigger] in_round_set(md, b, sig, exp, p, qn, qd) implies !simpler(qd, qn, r.1, r.0) by {
+        lemma_member(md, b, sig, exp, p, l2, r2, il, ir, ln, ld, un, ud, qn, qd);
+        assert(in_flag(ln, ld, un, ud, il, ir, qn, qd));
+    }
 }
